@@ -45,7 +45,8 @@ def main():
     total = 0
     for i in range(calls):
         d = data_for(i, seed)
-        total += len(m.mutate(d, 4096))
+        # every fifth input arrives in a bytearray (what a fuzzing engine may hand over): the mutator has to cope
+        total += len(m.mutate(bytearray(d) if i % 5 == 4 else d, 4096))
         if i % 4 == 0:
             total += len(bytes(g.generate_from_bytes(d)))
     gc.collect()
